@@ -41,16 +41,31 @@ def e2e_case(args):
     idx, seed, cc, work = args
     rng = random.Random(seed * 10007 + idx)
     names = colliding_names(rng, rng.choice([4, 6, 10]))
+    # names that start out defined by the compiler itself (dynamic GNU builtins and ordinary predefined macros): the table
+    # must treat them like any other key.  None = "defined, value not modelled"
+    builtin = rng.sample(['__COUNTER__', '__x86_64__', '__STDC_HOSTED__', '__STDC_VERSION__', '__SIZEOF_INT__', '__CHAR_BIT__' if False else '__SIZEOF_LONG__', '__linux__', '__ELF__', '__USER_LABEL_PREFIX__'
+                          if False else '__LP64__'], rng.choice([0, 1, 2, 3]))
+    names = names + builtin
     extra = ['Q%d' % rng.randrange(100000) for _ in range(rng.randrange(0, 30))]
-    model = {}
+    model = {b: None for b in builtin}
     cmd = []
     # command-line history
     for _ in range(rng.randrange(0, 8)):
         nm = rng.choice(names)
-        if rng.random() < 0.6:
+        r0 = rng.random()
+        if r0 < 0.45:
             v = rng.randrange(1, 1000)
             cmd.append('-D%s=%d' % (nm, v))
             model[nm] = str(v)
+        elif r0 < 0.6:
+            # replacement lists that contain '=' themselves, the empty list, and the bare name (= 1)
+            v = rng.choice(['1==1', '=', '==7', '3=4', '(2==3)', '', None, 'a=b=c'])
+            if v is None:
+                cmd.append('-D%s' % nm)
+                model[nm] = '1'
+            else:
+                cmd += rng.choice([['-D%s=%s' % (nm, v)], ['-D', '%s=%s' % (nm, v)]])
+                model[nm] = v
         else:
             cmd.append('-U' + nm)
             model.pop(nm, None)
@@ -63,8 +78,8 @@ def e2e_case(args):
         nm = rng.choice(names + extra[:3]) if rng.random() < 0.9 else rng.choice(extra or names)
         if r < 0.4:
             v = rng.randrange(1000, 100000)
-            if nm in model:
-                lines.append('#undef %s' % nm)
+            if nm in model and rng.random() < 0.75:
+                lines.append('#undef %s' % nm)      # otherwise: redefinition without #undef - the newest definition wins
             lines.append('#define %s %d' % (nm, v))
             model[nm] = str(v)
         elif r < 0.7:
@@ -80,12 +95,12 @@ def e2e_case(args):
         q = rng.choice(names)
         probe_id += 1
         lines += ['#ifdef %s' % q, 'P%d D %s' % (probe_id, q), '#else', 'P%d U' % probe_id, '#endif']
-        expect.append('P%d D %s' % (probe_id, model[q]) if q in model else 'P%d U' % probe_id)
+        expect.append(('P%d D %s' % (probe_id, model[q]) if model[q] is not None else 'P%d D *' % probe_id) if q in model else 'P%d U' % probe_id)
     # final sweep
     for q in names:
         probe_id += 1
         lines += ['#ifdef %s' % q, 'P%d D %s' % (probe_id, q), '#else', 'P%d U' % probe_id, '#endif']
-        expect.append('P%d D %s' % (probe_id, model[q]) if q in model else 'P%d U' % probe_id)
+        expect.append(('P%d D %s' % (probe_id, model[q]) if model[q] is not None else 'P%d D *' % probe_id) if q in model else 'P%d U' % probe_id)
     src = '\n'.join(lines) + '\n'
     path = os.path.join(work, 'h%d.c' % idx)
     with open(path, 'w') as f:
@@ -95,7 +110,14 @@ def e2e_case(args):
         os.unlink(path)
     except OSError:
         pass
-    got = [re.sub(r'\s+', ' ', l.strip()) for l in o.decode('utf-8', 'replace').split('\n') if l.strip()]
+    def norm(l):
+        p = l.strip().split(None, 2)
+        return ' '.join(p[:2] + [''.join(p[2].split())] if len(p) > 2 else p)
+    # the -E printer may break a line in front of a token produced by a dynamic macro: records are delimited by the P<n> markers
+    text = ' '.join(o.decode('utf-8', 'replace').split())
+    got = [norm(x) for x in re.split(r'(?=\bP\d+ [DU]\b)', text) if x.strip()]
+    expect = [norm(l) for l in expect]
+    got = [g if not (i < len(expect) and expect[i].endswith(' D *') and g.startswith(expect[i][:-2])) else expect[i] for i, g in enumerate(got)]
     ok = (rc == 0 and got == expect)
     detail = ''
     if not ok:
